@@ -290,6 +290,8 @@ class PyQuoter:
                 pos = [s for s, v in fact_in(e.state, ch) if v]
                 neg = [s for s, v in fact_in(e.state, ch) if not v]
                 okv, why = self.validated(e.state, window)
+                if getattr(self, "_bad_tables", None):
+                    okv, why = False, f"escape table {sorted(self._bad_tables)} does not map each b'%XX' (upper case) to chr(0xXX)"
                 site.update(cls="DEC", char=ch, pos=pos, neg=neg)
                 self.sites.append(site)
                 ctx.ob(rule, self.QUAL, cons, bool(pos) and bool(neg) and okv,
@@ -361,10 +363,13 @@ class PyQuoter:
         if not (self.win and self.win_root(key) and key[0] != "phi"):
             return None
         table = self._folded(tab)
-        if not isinstance(table, dict) or len(table) != 256:
+        if not isinstance(table, dict):
             return None
-        if any(table.get(b"%%%02X" % i) != chr(i) for i in range(256)):
-            return None
+        # the idiom is recognised by its shape; whether the table is the right one is part of the verdict
+        good = len(table) == 256 and all(table.get(b"%%%02X" % i) == chr(i) for i in range(256))
+        self.__dict__.setdefault("_bad_tables", set())
+        if not good:
+            self._bad_tables.add(show(tab))
         return key, is_get
 
     def decoded_char(self, a):
